@@ -20,7 +20,13 @@ CONFIGS = [
     ('ws://target.example/', {'https': 'http://proxy.local:3128'}, None, None, None, False, 'target.example', 80, False),
     ('wss://target.example/', {'http': 'http://proxy.local:3128'}, None, None, None, False, 'target.example', 443, True),
     ('ws://target.example/', {}, None, None, None, False, 'target.example', 80, False),
+    # environment proxies: proxies=None means "detect from HTTP_PROXY / HTTPS_PROXY"; an explicit {} disables them
+    ('ws://target.example/', 'ENV:{}', None, None, None, False, 'target.example', 80, False),
+    ('wss://target.example/', 'ENV:{}', None, None, None, False, 'target.example', 443, True),
+    ('ws://target.example/', 'ENV:None', 'http://envproxy.local:3128', 'envproxy.local', 3128, False, 'target.example', 80, False),
+    ('wss://target.example/', 'ENV:None', 'http://envsproxy.local:3129', 'envsproxy.local', 3129, False, 'target.example', 443, True),
 ]
+ENVIRON = {'HTTP_PROXY': 'http://envproxy.local:3128', 'HTTPS_PROXY': 'http://envsproxy.local:3129'}
 
 
 def run_proxy(c, P):
@@ -55,11 +61,24 @@ def run_proxy(c, P):
     # after the tunnel is up the same socket carries the websocket handshake
     sc.phases.append(lambda w_, s_: (hconn.reply_101(w_, s_) + [0x81, 0x01, 0x61]) if hconn.request_key(w_, s_) else None)
     if purl is None:
-        sc = Script(hconn.server_stream([0x81, 0x01, 0x61]), cuts='one', end='eof')
+        def direct(w_, s_):
+            if hconn.request_key(w_, s_) is not None:
+                return hconn.reply_101(w_, s_) + [0x81, 0x01, 0x61]
+            # something other than the upgrade request was written first (e.g. a CONNECT): answer like a proxy would,
+            # the oracle below reports it
+            return list(b'HTTP/1.1 200 Connection established\r\n\r\n')
+        sc = Script(direct, cuts='one', end='eof')
+        sc.phases.append(lambda w_, s_: (hconn.reply_101(w_, s_) + [0x81, 0x01, 0x61]) if hconn.request_key(w_, s_) else None)
     w.default_script = sc
     if P.get('fault'):
         F = P['fault']
         w.fault_hook = env.SymFaults(F['ops'], F.get('kinds', ['oserror']), F.get('max', 1), F.get('skip'))
+    import lomond.websocket as _W
+    if isinstance(proxies, str):
+        _W.os.environ = dict(ENVIRON)
+        proxies = {} if proxies == 'ENV:{}' else None
+    else:
+        _W.os.environ = {}
     ws = L.WebSocket(url, proxies=proxies)
     rec = hconn.drive(w, ws, dict(poll=1e9, ping_rate=0, ping_timeout=None, close_timeout=None))
     names = rec.names()
